@@ -131,11 +131,17 @@ func noSuchFile(err error) bool {
 	return os.IsNotExist(err) || errors.Is(err, syscall.ENOTDIR)
 }
 
-// belowFile reports whether a parent of the slash-separated path p is a regular
-// file. Nothing can be stored below an object; a real filesystem refuses to
-// create the directory, but some afero filesystems (MemMapFs) silently replace
-// the file with a directory, which would make the object vanish.
+// belowFile reports whether the slash-separated path p cannot hold an object
+// because a parent of it is a regular file (nothing can be stored below an
+// object) or because p is a directory. A real filesystem refuses both, but some
+// afero filesystems (MemMapFs) silently replace the file with a directory or
+// the directory with a file, which makes other objects vanish.
 func belowFile(fs afero.Fs, p string) bool {
+	// The converse: p itself is a directory holding other objects. MemMapFs
+	// would replace the directory with a file and orphan them.
+	if stat, err := fs.Stat(filepath.FromSlash(p)); err == nil && stat.IsDir() {
+		return true
+	}
 	for dir := path.Dir(p); dir != "." && dir != "/"; dir = path.Dir(dir) {
 		if stat, err := fs.Stat(filepath.FromSlash(dir)); err == nil && !stat.IsDir() {
 			return true
